@@ -12,6 +12,7 @@
 package c01
 
 import (
+	"context"
 	"encoding/json"
 	"errors"
 	"fmt"
@@ -28,7 +29,9 @@ import (
 
 	"verifharness/internal/abs"
 
+	"github.com/go-kit/log"
 	"github.com/grafana/dskit/ring"
+	"github.com/grafana/dskit/services"
 )
 
 const hbTimeout = time.Minute
@@ -48,6 +51,11 @@ type mcLine struct {
 	Look  [][][][]int `json:"look"` // [key class][op][za][rf-1] result code
 	Rset  [][][]int   `json:"rset"` // [op][za][rf-1] replication set code
 	Nt    int         `json:"nt"`
+	Excl  []int       `json:"excl"`  // zones excluded by the ring's configuration
+	Over  string      `json:"over"`  // error of a lookup with a per-call replication factor above the configured one
+	Acks  [][][][]int `json:"acks"`  // [key class][za][rf-1] id masks of the subsets of the Write replica set on which DoBatch succeeds
+	Answs [][][]int   `json:"answers"` // [za][rf-1] id masks of the subsets of the Read replication set on which DoUntilQuorum succeeds
+	Lookx [][][][][]int `json:"lookx"` // ignore-unhealthy strategy: [key class][op][za][configured rf-1][per-call rf-1] result code
 }
 
 // what the specification demands, decoded from a result code
@@ -118,6 +126,9 @@ func observe(rs ring.ReplicationSet, err error, pan any) got {
 			g.Err = "empty"
 		} else {
 			g.Err = "unhealthy" // "at least N live replicas required" / ErrTooManyUnhealthyInstances
+			if strings.Contains(err.Error(), "cannot exceed the configured replication factor") {
+				g.Err = "rf-exceeds"
+			}
 			if errors.Is(err, ring.ErrInconsistentTokensInfo) {
 				g.Err = "inconsistent"
 			}
@@ -415,6 +426,7 @@ type replayInput struct {
 	NK    int    `json:"nk"`
 	Gaps  []int  `json:"gaps"`
 	Label string `json:"label"`
+	Execs int    `json:"execs"` // > 0: bind the executors on every Execs-th descriptor (C02)
 }
 
 func TestReplay(t *testing.T) {
@@ -457,7 +469,7 @@ func replayFile(res *abs.Result, in replayInput, part string, seed int64, w, W i
 	}
 	boundary := abs.KeyClasses(nk, gaps)
 	gt := newGetter()
-	rings, calls, descs := 0, 0, 0
+	rings, calls, descs, execs := 0, 0, 0, 0
 	err := abs.ReadNDJSON(in.Path, func(raw []byte) error {
 		*lineNo++
 		if *lineNo%W != w {
@@ -489,12 +501,17 @@ func replayFile(res *abs.Result, in replayInput, part string, seed int64, w, W i
 			name    string
 			classes [][]uint32
 		}{{"boundary", boundary}, {"random", abs.RandomKeyClasses(nk, gaps, rnd)}}
-		allMask := 0
+		var exclNames []string
+		for _, z := range l.Excl {
+			exclNames = append(exclNames, abs.ZoneName(z))
+		}
+		allMask := 0 // the instances the ring works on
 		for i := range l.Ids {
-			if l.Ids[i] != 0 {
+			if l.Ids[i] != 0 && !contains(l.Excl, l.Zone[i]) {
 				allMask |= 1 << i
 			}
 		}
+		doExec := part == "c02" && in.Execs > 0 && len(l.Acks) == nk && (ls/1024)%int64(in.Execs) == 0
 		rfMax := len(l.Rset[0][0])
 		var sample map[string]any
 		for zi, za := range []bool{false, true} {
@@ -505,13 +522,14 @@ func replayFile(res *abs.Result, in replayInput, part string, seed int64, w, W i
 					now := atPhase(time.Duration(ph) * 500 * time.Millisecond)
 					ages := backs[ph]
 					desc := buildDesc(&l, emb.classes, ages, now)
-					r, stop, err := abs.NewRing(desc, ring.Config{ReplicationFactor: rf, ZoneAwarenessEnabled: za, HeartbeatTimeout: hbTimeout, SubringCacheDisabled: true})
+					r, stop, err := abs.NewRing(desc, ring.Config{ReplicationFactor: rf, ZoneAwarenessEnabled: za, HeartbeatTimeout: hbTimeout,
+						SubringCacheDisabled: true, ExcludedZones: exclNames})
 					if err != nil {
 						return fmt.Errorf("NewRing: %w", err)
 					}
 					rings++
 					caseOf := func(extra map[string]any) map[string]any {
-						c := map[string]any{"universe": in.Label, "embedding": emb.name, "rf": rf, "za": za,
+						c := map[string]any{"universe": in.Label, "embedding": emb.name, "rf": rf, "za": za, "excludedZones": exclNames,
 							"clockSubSecond": now.Nanosecond() != 0, "instances": describe(&l, emb.classes, ages, now)}
 						for k, v := range extra {
 							c[k] = v
@@ -569,6 +587,82 @@ func replayFile(res *abs.Result, in replayInput, part string, seed int64, w, W i
 							}
 						}
 					}
+					// a per-call replication factor above the configured one
+					if part == "c01" && l.Over != "" {
+						oi := (rf + zi + ei) % len(opSeq)
+						key := emb.classes[(rf+ei)%nk][0]
+						g := func() (res got) {
+							defer func() {
+								if p := recover(); p != nil {
+									res = observe(ring.ReplicationSet{}, nil, p)
+								}
+							}()
+							rs, err := r.GetWithOptions(key, opSeq[oi], ring.WithReplicationFactor(rf+1))
+							return observe(rs, err, nil)
+						}()
+						calls++
+						if ei == 0 {
+							res.Cases++
+						}
+						if g.Err != l.Over {
+							res.Mismatch(abs.Mismatch{Sig: fmt.Sprintf("lookup:over-rf op=%s want=%s got=%s", opNames[oi], l.Over, g.Err),
+								Case: caseOf(map[string]any{"call": "GetWithOptions(WithReplicationFactor(rf+1))", "op": opNames[oi], "key": key}),
+								Got:  g, Want: want{Err: l.Over}})
+						}
+					}
+					// the ignore-unhealthy strategy with per-call replication factors (expanded replication)
+					if part == "c01" && len(l.Lookx) == nk {
+						rx, stopx, err := newRingIgnoreUnhealthy(buildDesc(&l, emb.classes, ages, now), ring.Config{ReplicationFactor: rf, ZoneAwarenessEnabled: za,
+							HeartbeatTimeout: hbTimeout, SubringCacheDisabled: true, ExcludedZones: exclNames})
+						if err != nil {
+							return fmt.Errorf("NewRing(ignore-unhealthy): %w", err)
+						}
+						rings++
+						for k := 0; k < nk; k++ {
+							for oi, op := range opSeq {
+								for c := 1; c <= len(l.Lookx[k][oi][zi][rf-1]); c++ {
+									wnt := decodeLookup(l.Lookx[k][oi][zi][rf-1][c-1], n)
+									if ei == 0 {
+										res.Cases++
+										if c > rf {
+											res.Nontrivial++
+										}
+									}
+									for _, key := range emb.classes[k] {
+										g := func() (res got) {
+											defer func() {
+												if p := recover(); p != nil {
+													res = observe(ring.ReplicationSet{}, nil, p)
+												}
+											}()
+											var rs ring.ReplicationSet
+											var err error
+											if (c+k)%2 == 0 {
+												rs, err = rx.GetWithOptions(key, op, ring.WithReplicationFactor(c))
+											} else {
+												rs, err = rx.GetWithOptions(key, op, ring.WithReplicationFactor(c), ring.WithBuffers(gt.bufD1[:0], gt.bufH1[:0], nil))
+											}
+											return observe(rs, err, nil)
+										}()
+										calls++
+										if kind := diffLookup(g, wnt); kind != "" {
+											res.Mismatch(abs.Mismatch{
+												Sig:  fmt.Sprintf("lookup-ignore-unhealthy:%s op=%s expanded=%v za=%v", kind, opNames[oi], c > rf, za),
+												Case: caseOf(map[string]any{"call": fmt.Sprintf("GetWithOptions(WithReplicationFactor(%d))", c), "strategy": "ignore-unhealthy", "op": opNames[oi], "key": key, "keyClass": k}),
+												Got:  g, Want: wnt})
+											break
+										}
+									}
+								}
+							}
+						}
+						stopx()
+					}
+					if doExec && ei == 0 {
+						n1, n2 := bindExecutors(res, r, &l, emb.classes, zi, rf, caseOf)
+						calls += n1
+						execs += n2
+					}
 					stop()
 				}
 			}
@@ -594,6 +688,168 @@ func replayFile(res *abs.Result, in replayInput, part string, seed int64, w, W i
 	add("real_rings_built", rings)
 	add("real_calls", calls)
 	add("descriptors", descs)
+	add("executor_runs", execs)
+}
+
+// newRingIgnoreUnhealthy is abs.NewRing with the ignore-unhealthy replication strategy (the one that supports
+// expanded replication).
+func newRingIgnoreUnhealthy(desc *ring.Desc, cfg ring.Config) (*ring.Ring, func(), error) {
+	r, err := ring.NewWithStoreClientAndStrategy(cfg, "verif", "ring", &abs.StubKV{Value: desc}, ring.NewIgnoreUnhealthyInstancesReplicationStrategy(), nil, log.NewNopLogger())
+	if err != nil {
+		return nil, nil, err
+	}
+	if err := services.StartAndAwaitRunning(context.Background(), r); err != nil {
+		return nil, nil, err
+	}
+	return r, func() { _ = services.StopAndAwaitTerminated(context.Background(), r) }, nil
+}
+
+func contains(xs []int, x int) bool {
+	for _, y := range xs {
+		if y == x {
+			return true
+		}
+	}
+	return false
+}
+
+var errRefused = errors.New("replica refused")
+
+func idNum(id string) int {
+	var n int
+	fmt.Sscanf(id, "i-%d", &n)
+	return n
+}
+
+// subsets of the id mask m (including the empty set and m itself)
+func subsets(m int) []int {
+	out := []int{}
+	for s := m; ; s = (s - 1) & m {
+		out = append(out, s)
+		if s == 0 {
+			break
+		}
+	}
+	return out
+}
+
+// bindExecutors runs the REAL quorum executors on the real ring r (zone-awareness ZASeq[zi], replication factor rf):
+// for every subset A of the Write replica set of every key class ring.DoBatch with callbacks that succeed exactly on A
+// must succeed iff the specification's WriteSucceeds(w, A); for every subset B of the Read replication set
+// DoUntilQuorum (with and without request minimisation) and ReplicationSet.Do with calls that succeed exactly on B
+// must succeed iff ReadSucceeds(r, B). Returns the number of lookups and of executor runs.
+func bindExecutors(res *abs.Result, r *ring.Ring, l *mcLine, classes [][]uint32, zi, rf int, caseOf func(map[string]any) map[string]any) (int, int) {
+	n := len(l.Ids)
+	lookups, runs := 0, 0
+	// an executor that never returns would block the whole bubble; a (virtual-time) deadline turns that into a result.
+	// The deadline moves the bubble clock, so the binding of this ring stops after the first one (hung == true).
+	ctx, cancel := context.WithTimeout(context.Background(), 10*time.Second)
+	defer cancel()
+	hung := false
+	report := func(exec string, mask int, gotOK, wantOK bool, gotErr error, extra map[string]any) {
+		extra["executor"] = exec
+		extra["succeeding_instances"] = idsOfMask(mask, n)
+		e := ""
+		if gotErr != nil {
+			e = gotErr.Error()
+		}
+		if errors.Is(gotErr, context.DeadlineExceeded) {
+			exec += ":hangs"
+			hung = true
+		}
+		res.Mismatch(abs.Mismatch{Sig: fmt.Sprintf("exec:%s want_success=%v got_success=%v za=%v", exec, wantOK, gotOK, zi == 1),
+			Case: caseOf(extra), Got: map[string]any{"success": gotOK, "err": e}, Want: map[string]any{"success": wantOK}})
+	}
+	// writes
+	for k := range classes {
+		key := classes[k][0]
+		w := decodeLookup(l.Look[k][0][zi][rf-1], n)
+		okSets := l.Acks[k][zi][rf-1]
+		cand := []int{(1 << n) - 1}
+		if w.Err == "" {
+			cand = subsets(w.mask)
+		}
+		for _, a := range cand {
+			var panicked any
+			err := func() (err error) {
+				defer func() {
+					if p := recover(); p != nil {
+						panicked, err = p, fmt.Errorf("panic: %v", p)
+					}
+				}()
+				return ring.DoBatch(ctx, ring.Write, r, []uint32{key}, func(inst ring.InstanceDesc, _ []int) error {
+					if a&(1<<(idNum(inst.Id)-1)) != 0 {
+						return nil
+					}
+					return errRefused
+				}, func() {})
+			}()
+			lookups++
+			runs++
+			res.Cases++
+			if a != 0 && a != w.mask {
+				res.Nontrivial++
+			}
+			if wantOK := contains(okSets, a); (err == nil) != wantOK || panicked != nil || errors.Is(err, context.DeadlineExceeded) {
+				report("DoBatch", a, err == nil, wantOK, err, map[string]any{"key": key, "keyClass": k, "write_replica_set": w})
+			}
+			if hung {
+				return lookups, runs
+			}
+		}
+	}
+	// reads
+	rw := decodeRset(l.Rset[2][zi][rf-1], n)
+	okSets := l.Answs[zi][rf-1]
+	rs, rerr := r.GetReplicationSetForOperation(ring.Read)
+	lookups++
+	if rerr != nil {
+		if len(okSets) != 0 {
+			report("GetReplicationSetForOperation", 0, false, true, rerr, map[string]any{})
+		}
+		return lookups, runs
+	}
+	f := func(b int) func(context.Context, *ring.InstanceDesc) (int, error) {
+		return func(_ context.Context, inst *ring.InstanceDesc) (int, error) {
+			if b&(1<<(idNum(inst.Id)-1)) != 0 {
+				return idNum(inst.Id), nil
+			}
+			return 0, errRefused
+		}
+	}
+	for _, b := range subsets(rw.mask) {
+		wantOK := contains(okSets, b)
+		for v, name := range []string{"DoUntilQuorum", "DoUntilQuorum(MinimizeRequests)", "ReplicationSet.Do"} {
+			var err error
+			func() {
+				defer func() {
+					if p := recover(); p != nil {
+						err = fmt.Errorf("panic: %v", p)
+						name += ":panic"
+					}
+				}()
+				switch v {
+				case 0, 1:
+					_, err = ring.DoUntilQuorum(ctx, rs, ring.DoUntilQuorumConfig{MinimizeRequests: v == 1}, f(b), func(int) {})
+				default:
+					g := f(b)
+					_, err = rs.Do(ctx, 0, func(c context.Context, inst *ring.InstanceDesc) (interface{}, error) { return g(c, inst) })
+				}
+			}()
+			runs++
+			res.Cases++
+			if b != 0 && b != rw.mask {
+				res.Nontrivial++
+			}
+			if (err == nil) != wantOK || strings.HasSuffix(name, ":panic") || errors.Is(err, context.DeadlineExceeded) {
+				report(name, b, err == nil, wantOK, err, map[string]any{"read_replication_set": rw})
+			}
+			if hung {
+				return lookups, runs
+			}
+		}
+	}
+	return lookups, runs
 }
 
 func describe(l *mcLine, classes [][]uint32, ages []int64, now time.Time) []map[string]any {
